@@ -1,0 +1,15 @@
+//go:build verif
+
+package psinterpreter
+
+// Contracts for contract-based deductive verification (comment-only; see /verif/DESIGN.md).
+// Property C09, mechanism "recursion/nesting limits ... psCallStackSize": a subroutine call never writes beyond the
+// fixed call stack, for any subroutine index and any nesting depth reached so far.
+//@ func Machine.CallSubroutine C09c
+//@   mode int
+//@   requires [stack-depth] 0 <= p.callStack.top && p.callStack.top <= psCallStackSize
+//@   modifies unspecified
+//@ func Machine.Return C09c
+//@   mode int
+//@   requires [stack-depth] p.callStack.top <= psCallStackSize
+//@   modifies unspecified
